@@ -324,6 +324,18 @@ package martian
 //@ ensures !wrFailed(w.w) ==> w.last == ite(n > 0, p[n - 1], 0)
 //@ ensures nFlush(w.f) <= old(nFlush(w.f)) + 1
 
+// flushAfterWrite (C02: a body of unknown length that is not written in the
+// chunked coding - there is no chunk boundary to wait for): the bytes go to the
+// inner writer unchanged and every successful write is followed by a flush.
+//@ func (flushAfterWrite).Write
+//@ property C02
+//@ requires w.w != nil && w.f != nil && !wrFailed(w.w)
+//@ modifies wlen(w.w), wdata, wrFailed(w.w), nFlush(w.f)
+//@ ensures 0 <= n && n <= len(p) && wlen(w.w) == old(wlen(w.w)) + n
+//@ ensures forall i int :: 0 <= i && i < n ==> wdata(w.w, old(wlen(w.w)) + i) == p[i]
+//@ ensures !wrFailed(w.w) ==> nFlush(w.f) == old(nFlush(w.f)) + 1
+//@ ensures wrFailed(w.w) ==> nFlush(w.f) == old(nFlush(w.f)) && err != nil
+
 // ---- writing responses and accounting (C13, C02 L2.4, C11 L11.3) ----
 
 // I/O on the client connection and message serialisation (net, bufio, net/http):
@@ -365,9 +377,11 @@ package martian
 
 // (serialisation by net/http: chunked iff the response says so at that moment)
 //@ ghost ivar wroteTE() int
+//@ ghost ivar wroteVia() io.Writer
 //@ func (*http.Response).Write as (r *http.Response, w io.Writer) (result error)
 //@ trusted
-//@ modifies *, wErr(), wroteTE()
+//@ modifies *, wErr(), wroteTE(), wroteVia()
+//@ ensures wroteVia() == w
 //@ preserves http.Response.StatusCode http.Response.Close http.Response.Request http.Request.Method http.Request.Close http.Response.Header http.Request.Header http.Request.URL http.Request.Body http.Response.Body proxyConn.* Proxy.* bufio.ReadWriter.* maps(http.Header) http.Request.ProtoMajor http.Request.ProtoMinor http.Response.ProtoMajor http.Response.ProtoMinor http.Response.ContentLength http.Response.TransferEncoding
 //@ ensures wErr() == (old(wErr()) || result != nil)
 //@ ensures wroteTE() == old(len(r.TransferEncoding))
@@ -382,8 +396,13 @@ package martian
 //@ property C13 C02 C11 C04 C12
 //@ ghostset wrotePA() := old(hasPA(res.Header))
 //@ requires p != nil && p.Proxy != nil && p.conn != nil && p.brw != nil && p.brw.Writer != nil && res != nil && res.Request != nil && res.Header != nil
-//@ modifies *, nWrote(), wroteStatus(), sawClosing(), wrotePA(), wErr(), wroteTE()
+//@ modifies *, nWrote(), wroteStatus(), sawClosing(), wrotePA(), wErr(), wroteTE(), wroteVia()
 //@ preserves proxyConn.Proxy proxyConn.brw proxyConn.conn Proxy.* bufio.ReadWriter.* http.Response.StatusCode http.Response.Request http.Request.Method
+// C02 (incremental delivery): a body of unknown length is written through a
+// flushing writer - per chunk when it goes out in the chunked coding, after
+// every write when it is delimited by closing the connection.
+//@ ensures wroteTE() > 0 && old(res.ProtoMajor == 1 && res.ProtoMinor == 1 && res.ContentLength == -1 && !(res.Request.Method == "HEAD" || res.StatusCode / 100 == 1 || res.StatusCode == 204 || res.StatusCode == 304)) && old(res.Request.Method) != "CONNECT" ==> (wroteVia() is *patternFlushWriter)
+//@ ensures wroteTE() == 0 && old(res.ProtoMajor == 1 && res.ProtoMinor == 1 && res.ContentLength == -1 && !(res.Request.Method == "HEAD" || res.StatusCode / 100 == 1 || res.StatusCode == 204 || res.StatusCode == 304)) && old(res.Request.Method) != "CONNECT" ==> (wroteVia() is flushAfterWrite)
 //@ ensures nWrote() == old(nWrote()) || nWrote() == old(nWrote()) + 1
 //@ ensures !deferredReport(old(res.Request.Method), old(res.StatusCode)) ==> nWrote() == old(nWrote()) + 1 && wroteStatus() == old(res.StatusCode)
 //@ ensures nWrote() == old(nWrote()) + 1 ==> wroteStatus() == old(res.StatusCode)
